@@ -401,4 +401,9 @@ Example C05_ex_volume :
   (exists s, geometry_of (C05_ex_res 3) = Good s /\ fs_sep s == 3125 # 90) /\
   (exists s, geometry_of (C05_ex_res 4) = Good s /\ fs_vol s == 125000000) /\
   heat_content 125000000 2700 1000 200 52 == 4995 # 100.
-Proof. repeat split; try (eexists; split; [vm_compute; reflexivity|]); vm_compute; reflexivity. Qed.
+Proof.
+  split. eexists. split. vm_compute. reflexivity. split; vm_compute; reflexivity.
+  split. eexists. split. vm_compute. reflexivity. vm_compute. reflexivity.
+  split. eexists. split. vm_compute. reflexivity. vm_compute. reflexivity.
+  vm_compute. reflexivity.
+Qed.
